@@ -77,6 +77,8 @@ func c11WriteModule(root string) error {
 		os.WriteFile(filepath.Join(dir, "other_test.go"),
 			[]byte(strings.NewReplacer("{{PKG}}", pkg, "{{FN}}", "callOther", "{{WHERE}}", "helper in another _test.go file").Replace(calls)+
 				"\n// viaOther reaches the non-test helper callPlain through a frame of this test file.\nfunc viaOther(t *testing.T, cb c11lib.Combo) { callPlain(t, cb) }\n"), 0o644)
+		os.WriteFile(filepath.Join(dir, "dotted.v2_test.go"),
+			[]byte(strings.NewReplacer("{{PKG}}", pkg, "{{FN}}", "callDotted", "{{WHERE}}", "helper in a test file whose name contains a dot").Replace(calls)), 0o644)
 		os.WriteFile(filepath.Join(dir, "plain.go"),
 			[]byte(strings.NewReplacer("{{PKG}}", pkg, "{{FN}}", "callPlain", "{{WHERE}}", "helper in a non-test file of the package").Replace(calls)), 0o644)
 	}
@@ -102,6 +104,8 @@ func c11Expected(pkgDir, absDir string, r c11Result) string {
 			base = strings.ReplaceAll(r.TestName, "/", "_")
 		} else if cb.Shape == "helper-other-testfile" || cb.Shape == "helper-nontest-via-other-testfile" {
 			base = "other_test"
+		} else if cb.Shape == "helper-dotted-testfile" {
+			base = "dotted.v2_test"
 		} else {
 			base = "c11_test"
 		}
@@ -124,7 +128,7 @@ func c11Expected(pkgDir, absDir string, r c11Result) string {
 
 func runC11(tier, scratch, replay string, nworkers int) *merged {
 	m := newMerged()
-	m.rule = "Dir {unset, d, d/e, absolute} x Filename x Ext x 5 APIs x 12 call shapes (direct, closure, helper in the same / another test file, in a non-test file, in another package, 40/70 frames deep, subtest, goroutine, through a Config used before) looped inside the real test binary (executed twice: create, then update with a changed value), " +
+	m.rule = "Dir {unset, d, d/e, d_%d, absolute} x Filename {unset, custom, api/users, case_%d} x Ext x 5 APIs x 13 call shapes (helper in a test file with a dotted name, direct, closure, helper in the same / another test file, in a non-test file, in another package, 40/70 frames deep, subtest, goroutine, through a Config used before) looped inside the real test binary (executed twice: create, then update with a changed value), " +
 		"x package depth {root, sub, sub/deep} x build {plain, -trimpath flag, -trimpath via GOFLAGS} x cwd changed (plain) x GOROOT set/unset; non-trivial = distinct (run, combination) pairs"
 	m.assumptions = append(m.assumptions, "with -trimpath the binary is run from its package directory, as go test does (the documented limitation -trimpath + foreign cwd is excluded)")
 	root := filepath.Join(scratch, "c11", "e3mod")
